@@ -346,7 +346,28 @@ def gateway_traffic(rng: Random, lines: list[tuple[str, str]], meta: dict[str, A
     for _ in range(rng.choice((1, 2, 4, 8))):
         gw = rng.choice(("18:006402", "18:006402", "18:013393", "30:258720"))
         idx = f"{rng.randrange(0, 12):02X}"
-        kind = rng.choice(("rq1F09", "rq1F09", "rq313F", "w313F", "w313F", "w2309", "w2349", "w2E04", "w1F41", "w000A", "dev10A0"))
+        kind = rng.choice(("rq1F09", "rq1F09", "rq313F", "w313F", "w313F", "w2309", "w2349", "w2E04", "w1F41", "w000A", "dev10A0", "rq0418", "rq0418"))
+        if kind == "rq0418":
+            # somebody reads the controller's fault log: one entry or a few, from the top or from the middle (the
+            # exchange for the first entries may have been missed), to the end (a null entry) or not
+            first = rng.choice((0, 0, 1, 5, 0x3E, 0x3F))
+            seq = []
+            for k in range(rng.choice((1, 1, 2, 4))):
+                i = min(first + k, 0x3F)
+                mo, d, h = rng.randrange(1, 13), rng.randrange(1, 28), rng.randrange(24)
+                ts = (mo << 36) | (d << 31) | (24 << 24) | (h << 19) | ((59 - i % 60) << 13) | (7 << 7) | 0x7F
+                seq.append(f"RQ --- {gw} {ctl} --:------ 0418 003 0000{i:02X}")
+                if rng.random() < 0.2:
+                    seq.append(f"RP --- {ctl} {gw} --:------ 0418 022 000000B0000000000000000000007FFFFF7000000000")
+                    break
+                seq.append(f"RP --- {ctl} {gw} --:------ 0418 022 00{rng.choice(('00', '40', 'C0'))}{i:02X}B0{rng.choice(('04', '06', '01'))}{rng.choice(('00', '01', 'FC'))}{rng.choice(('00', '04', '05'))}0000{ts:012X}FFFF7000{rng.choice(('000001', '12D687', 'FFFFFF'))}")
+            at = rng.randrange(len(out) + 1)
+            dtm = out[at - 1][0] if at else (out[0][0] if out else "2024-03-01T12:00:00.000000")
+            for j, frame in enumerate(seq):
+                if rng.random() < 0.85:  # (some of it is not heard)
+                    out.insert(at + j, (dtm, "045 " + frame))
+            n += 1
+            continue
         if kind == "dev10A0":
             # a hot-water sensor asks its controller for the DHW parameters (as real ones do) and is answered; later a
             # gateway asks the same and gets a (newer) answer
